@@ -24,6 +24,34 @@ class FullGen(Gen):
         self.records = []  # (type name, fields)
         self.enums = []
 
+    # annotated functions every program can call (rightly or wrongly typed): run-time type checks of
+    # parameters / defaults / results are part of the dialect
+    TYPED_PRELUDE = [
+        "def typed_fn3(a: int, b: str, c: list[int] = []) -> int: return a + len(b) + len(c)",
+        "def typed_fn2(x: int | None, y: dict[str, int] | None = None, *rest: str, **kw: bool) -> tuple[int, ...]: return (x or 0, len(rest) + len(kw) + len(y or {}))",
+        "def typed_ret(x) -> str: return x",
+    ]
+    TYPED_FAILS = [
+        "emit(typed_fn3(\"x\", \"y\"))", "emit(typed_fn3(1, 2))", "emit(typed_fn3(\"x\", 2, [1]))", "emit(typed_fn3(1, \"a\", [\"s\"]))", "emit(typed_fn3(None, \"a\", c=[1]))",
+        "emit(typed_fn3(1, \"a\", c=(1,)))", "emit(typed_fn3(b=\"a\", a=1.5))", "emit(typed_ret(5))", "emit(typed_ret([\"s\"]))", "emit(typed_fn2(\"1\"))", "emit(typed_fn2(1, {1: 1}))",
+        "emit(typed_fn2(1, None, \"a\", 2))", "emit(typed_fn2(1, k=1))", "emit(typed_fn2([], {\"a\": \"b\"}, \"r\", k=True))",
+    ]
+    TYPED_OK = ["typed_fn3(1, \"ab\")", "typed_fn3(2, \"\", [1, 2])", "typed_fn3(b=\"x\", a=3, c=[])", "typed_fn2(None)", "typed_fn2(4, {\"a\": 1}, \"r\", \"s\", k=True)",
+                "typed_fn2(1, None, *[\"a\"], **{\"z\": False})", "typed_ret(\"s\")"]
+
+    def program(self, pre_lines=None, pre_vars=None, pre_fns=None):
+        if self.annotations:
+            self.FAILS = list(Gen.FAILS) + self.TYPED_FAILS
+        lines = super().program(pre_lines=pre_lines, pre_vars=pre_vars, pre_fns=pre_fns)
+        if self.annotations:
+            pre = []
+            for l in self.TYPED_PRELUDE:
+                head, body = l.split(": return ", 1)
+                pre += [(0, head + ":"), (1, "return " + body)]
+            k = len(pre_lines or [])  # after load statements
+            lines[k:k] = pre
+        return lines
+
     # ---- extra expressions
     def any_expr(self, sc, d=0):
         r = self.r
@@ -48,6 +76,8 @@ class FullGen(Gen):
         if k == 10:
             return "range(%d, %d)" % (r.randint(-2, 3), r.randint(0, 9))
         if k == 11:
+            if self.annotations and self.p(0.4):
+                return self.ch(self.TYPED_OK)
             return self.ch(["None", "True", "len", "str", "int"])
         if k == 12:
             return "{%s: %s}" % (self.expr(sc, self.ch([INT, STR, TIS]), 2), self.any_expr(sc, d + 1) if d < 2 else "0")
